@@ -18,7 +18,7 @@ W  == Rgx(RxPlus(Cls(<<a, b>>)))
 Lam(kind, x) == Py(<<"lam", kind, <<"var", x>>>>)
 
 (* wrappers: each is semantically transparent up to a fixed image of the value *)
-Wrappers == {"seq", "optseq", "opt", "failor", "zzor", "left", "expectseq"}
+Wrappers == {"seq", "optseq", "opt", "failor", "zzor", "left", "expectseq", "altopt"}
 Wrap(w, x) ==
     CASE w = "seq"    -> Seq1(x)                                   \* [x]
       [] w = "optseq" -> Seq2(Opt(Str(<<122>>)), x)                \* ["z"?, x]
@@ -27,9 +27,12 @@ Wrap(w, x) ==
       [] w = "zzor"   -> Right(Ch2(Str(<<122, 122>>), Str(<<>>)), x)  \* ("zz" | "") >> x : a choice whose first branch fails
       [] w = "left"   -> Left(x, Str(<<>>))                        \* x << ""
       [] w = "expectseq" -> Right(Expect(x), x)                    \* Expect(x) >> x
+         \* an expression that always succeeds, entered right after a failed alternative, at every depth
+      [] w = "altopt" -> Ch2(Str(<<78>>), Opt(Seq1(x)))            \* "N" | Opt([x])
 WrapV(w, v) ==
     CASE w = "seq" -> <<"l", <<v>>>>
       [] w = "optseq" -> <<"l", <<None, v>>>>
+      [] w = "altopt" -> <<"l", <<v>>>>
       [] OTHER -> v
 
 RECURSIVE WrapN(_, _, _)
@@ -38,12 +41,14 @@ RECURSIVE WrapVN(_, _, _)
 WrapVN(w, v, n) == IF n = 0 THEN v ELSE WrapV(w, WrapVN(w, v, n - 1))
 
 (* inner expressions: <<kind, how the wrapped expression is placed in the grammar>> *)
-Inners == {"lit", "ref", "litign", "call", "pylet", "pyfield", "pyletfield", "countletfield", "pyparam", "wherelet", "count"}
+Inners == {"lit", "ref", "litign", "call", "pylet", "pyfield", "pyletfield", "countletfield", "pyparam", "wherelet", "count",
+           "argfield", "arglet"}        \* a bound name passed on as a plain argument (no inline Python involved)
 
 (* grammar for (inner kind, wrapped-expression builder F) *)
 Grammar(ik, w, n) ==
     LET F(x) == WrapN(w, x, n)
-        base == [ A |-> Rule(A1), Id |-> RuleP(<<"p">>, Ref("p")), Wd |-> Rule(W) ]
+        base == [ A |-> Rule(A1), Id |-> RuleP(<<"p">>, Ref("p")), Wd |-> Rule(W),
+                  V |-> RuleP(<<"v">>, Seq2(Opt(Str(<<44>>)), PyVar("v"))) ]
     IN CASE ik = "lit"    -> [rules |-> ("start" :> Rule(F(A1))) @@ base, ign |-> <<>>, start |-> "start"]
          [] ik = "ref"    -> [rules |-> ("start" :> Rule(F(Ref("A")))) @@ base, ign |-> <<>>, start |-> "start"]
          [] ik = "litign" -> [rules |-> ("start" :> Rule(F(A1))) @@ base,
@@ -57,6 +62,10 @@ Grammar(ik, w, n) ==
          [] ik = "countletfield" -> [rules |-> ("start" :> Class(<<LetF("n", Apply(Rgx(Cls(<<49, 50>>)), Py(<<"fn", "int">>))),
                                                                   Field("items", F(Rep(A1, Nm("n"), Nm("n"))))>>)) @@ base,
                                      ign |-> <<>>, start |-> "start"]
+         [] ik = "argfield" -> [rules |-> ("start" :> Class(<<Field("x", Ref("Wd")), Field("y", F(Call("V", <<Pos(Ref("x"))>>)))>>)) @@ base,
+                                ign |-> <<>>, start |-> "start"]
+         [] ik = "arglet" -> [rules |-> ("start" :> Rule(Let("x", Ref("Wd"), F(Call("V", <<Pos(Ref("x"))>>))))) @@ base,
+                              ign |-> <<>>, start |-> "start"]
          [] ik = "pyparam" -> [rules |-> ("start" :> Rule(Call("T", <<Pos(Ref("Wd"))>>)) @@ ("T" :> RuleP(<<"q">>, Seq2(Ref("q"), F(Py(<<"lst", << <<"k", <<"i", 1>>>> >> >>))))))
                                           @@ base, ign |-> <<>>, start |-> "start"]
          [] ik = "wherelet" -> [rules |-> ("start" :> Rule(Let("x", Left(Ref("Wd"), Str(<<44>>)), F(Where(Ref("Wd"), Lam("eq", "x")))))) @@ base,
@@ -67,7 +76,7 @@ Grammar(ik, w, n) ==
 Texts(ik) ==
     CASE ik \in {"lit", "ref", "call"} -> << <<a>>, <<b>>, <<>>, <<a, a>>, <<122, a>>, <<122, 122, a>> >>
       [] ik = "litign" -> << <<a>>, <<sp, a, sp, sp>>, <<a, sp, b>>, <<sp>>, <<122, sp, a>> >>
-      [] ik \in {"pylet", "pyfield", "pyletfield", "pyparam"} -> << <<a, b>>, <<b>>, <<>>, <<a, 44>> >>
+      [] ik \in {"pylet", "pyfield", "pyletfield", "pyparam", "argfield", "arglet"} -> << <<a, b>>, <<b>>, <<>>, <<a, 44>> >>
       [] ik = "countletfield" -> << <<50, a, a>>, <<49, a, a>>, <<50, a>>, <<49>> >>
       [] ik = "wherelet" -> << <<a, b, 44, a, b>>, <<a, 44, b>>, <<a, b, 44>>, <<b, 44, b, a>> >>
       [] ik = "count" -> << <<50, a, a>>, <<49, a, a>>, <<50, a>>, <<49>> >>
@@ -79,9 +88,10 @@ vars == <<ik, w, n, named, done>>
 
 Init == /\ ik \in Inners /\ w \in Wrappers /\ n \in 1..MaxD /\ named \in {FALSE, TRUE}
         \* quick: every depth for the sequence wrappers (they deepen the generated blocks), a sample of depths otherwise
-        /\ (Tier = "quick" => (w \in {"seq", "optseq"} \/ n \in {1, 2, 10, 17, 18, 19, 20, 21, 30, 45}))
+        /\ (Tier = "quick" => (w \in {"seq", "optseq", "altopt"} \/ n \in {1, 2, 10, 17, 18, 19, 20, 21, 30, 45}))
+        /\ (w = "altopt" => (ik \in {"lit", "ref", "litign", "count"} /\ n <= 40))
         /\ (Tier = "quick" => (named = (n % 2 = 0)))
-        /\ (w = "expectseq" => ik \notin {"pylet", "pyfield", "pyletfield", "pyparam"})   \* Expect(`..`) reads inline Python as an option value
+        /\ (w = "expectseq" => ik \notin {"pylet", "pyfield", "pyletfield", "pyparam", "argfield", "arglet"})   \* Expect(`..`) reads inline Python as an option value
         /\ (w = "expectseq" => n <= 8)              \* this wrapper doubles the expression at every level
         /\ done = FALSE
 
@@ -101,6 +111,8 @@ LawWrapTransparent ==
             rn == EvalEntry(Grammar(ik, w, n), "start", Texts(ik)[k], 0)
         IN IF w = "opt"
            THEN rn.t = "ok" /\ (r0.t = "ok" => (rn.v = r0.v /\ rn.e = r0.e))
+           ELSE IF w = "altopt"
+           THEN rn.t = "ok" /\ (r0.t = "ok" => (rn.v = WrapVN(w, r0.v, n) /\ rn.e = r0.e))
            ELSE IF w = "optseq" /\ Texts(ik)[k] # <<>> /\ Texts(ik)[k][1] = 122
            THEN TRUE       \* the optional "z" of the outermost layer may consume input
            ELSE IF w = "zzor" /\ Texts(ik)[k] # <<>> /\ Texts(ik)[k][1] = 122
